@@ -64,13 +64,13 @@ func init() {
 				runs++
 			}
 		}
-		for _, cc := range corpus.CRLs {
+		for _, cc := range append(append([]CorpusCRL{}, corpus.CRLs...), crlZoo()...) {
 			for n, r := range zlint.LintRevocationList(cc.CRL).Results {
 				note(n, int(r.Status), cc.File)
 				runs++
 			}
 		}
-		for _, cc := range corpus.OCSPs {
+		for _, cc := range append(append([]CorpusOCSP{}, corpus.OCSPs...), ocspZoo()...) {
 			for n, r := range zlint.LintOcspResponse(cc.Resp).Results {
 				note(n, int(r.Status), cc.File)
 				runs++
